@@ -9,6 +9,7 @@ require (
 	github.com/anishathalye/porcupine v1.3.0
 	github.com/golang/geo v0.0.0-20190916061304-5b978397cfec
 	google.golang.org/protobuf v1.30.0
+	gopkg.in/yaml.v2 v2.4.0
 )
 
 require (
@@ -24,7 +25,6 @@ require (
 	gonum.org/v1/gonum v0.15.1 // indirect
 	google.golang.org/genproto v0.0.0-20230403163135-c38d8f061ccd // indirect
 	google.golang.org/grpc v1.54.0 // indirect
-	gopkg.in/yaml.v2 v2.4.0 // indirect
 )
 
 replace diagonal.works/b6 => /repo/src/diagonal.works/b6
